@@ -161,3 +161,50 @@ _c = _K("Network.nsi_global_clustering[formula]", _NW, lang="py", func="Network.
 _c.region = "body"
 _c.required_asserts = []
 _c.rtc_py = True
+
+
+# ============================================================================ timeseries: time-directed degrees of visibility graphs (C14)
+# retarded degree_i = number of neighbours j < i, advanced degree_i = number of neighbours j >= i (the diagonal is empty:
+# proved for the kernels), hence retarded + advanced = degree for every adjacency matrix; the adjacency matrix is not written.
+_VG = "timeseries/visibility_graph.py"
+for _nm, _sum, _inv in (("retarded_degree", "fsum(lambda j: self.adjacency[q,j], q)", "retarded_degree"),
+                        ("advanced_degree", "fsum(lambda j: self.adjacency[q,q+j], self.N-q)", "advanced_degree")):
+    _c = _K(f"VisibilityGraph.{_nm}[formula]", _VG, lang="py", func=f"VisibilityGraph.{_nm}", props=("C14",),
+            py_mode=True, vectors=True, inputs={"self.adjacency": "arr:int8:2", "self.N": "int"},
+            requires=["self.N>=0", "shape(self.adjacency,0)==self.N and shape(self.adjacency,1)==self.N"],
+            loops={"i": [f"shape({_inv},0)==self.N", f"all({_inv}[q]=={_sum} for q in range(i))"]},
+            ensures=["shape(result,0)==self.N", f"all(result[q]=={_sum} for q in range(self.N))"],
+            checks=("shape", "bounds"))
+    _c.region = "body"
+    _c.required_asserts = []
+    _c.rtc_py = True
+
+
+# ============================================================================ timeseries: recurrence rate / probability (C08, C07)
+# RR = number of recurrent points / N^2 (dense: sum of the matrix; sequential mode: sum_v v * P(v) of the black vertical
+# lines);  recurrence probability at lag tau = mean of the tau-th diagonal.
+_RPF = "timeseries/recurrence_plot.py"
+_RMF = {"self.recurrence_matrix": {"returns": "arr:int8:2", "ensures": ["same_array(result, RM)", "shape(result,0)==self.N and shape(result,1)==self.N"]}}
+_c = _K("RecurrencePlot.recurrence_rate[formula:dense]", _RPF, lang="py", func="RecurrencePlot.recurrence_rate", props=("C08", "C07"),
+        py_mode=True, vectors=True, inputs={"RM": "arr:int8:2", "self.N": "int", "self.sparse_rqa": "bool"},
+        requires=["self.N>=1", "shape(RM,0)==self.N and shape(RM,1)==self.N", "self.sparse_rqa==0"], call_facts=_RMF,
+        ensures=["result==fsum(lambda i: fsum(lambda j: RM[i,j], self.N), self.N)/(self.N**2)"], checks=("shape", "bounds"))
+_c.region = "body"
+_c.required_asserts = []
+_c.rtc_py = True
+_c = _K("RecurrencePlot.recurrence_probability[formula]", _RPF, lang="py", func="RecurrencePlot.recurrence_probability", props=("C08", "C07"),
+        py_mode=True, vectors=True, inputs={"RM": "arr:int8:2", "self.N": "int", "lag": "int"},
+        requires=["self.N>=1", "0<=lag and lag<self.N", "shape(RM,0)==self.N and shape(RM,1)==self.N"], call_facts=_RMF,
+        ensures=["result==fsum(lambda k: RM[k,k+lag], self.N-lag)/(self.N-lag)"], checks=("shape", "bounds"))
+_c.region = "body"
+_c.required_asserts = []
+_c.rtc_py = True
+_c = _K("RecurrencePlot.recurrence_rate[formula:sequential]", _RPF, lang="py", func="RecurrencePlot.recurrence_rate", props=("C08", "C07"),
+        py_mode=True, vectors=True, inputs={"VD": "arr:int64:1", "self.N": "int", "self.sparse_rqa": "bool", "self.metric": "obj"},
+        requires=["self.N>=1", "shape(VD,0)==self.N", "self.sparse_rqa==1"],
+        call_facts={"self.vertline_dist": {"returns": "arr:int64:1", "ensures": ["same_array(result, VD)", "shape(result,0)==self.N"]}},
+        # (which metric string selects this branch is not asserted: string comparison of the opaque `metric`; the other
+        #  branch raises NotImplementedError)
+        ensures=["result==fsum(lambda k: VD[k]*(1+k), self.N)/(self.N**2)"], checks=("shape", "bounds"))
+_c.region = "body"
+_c.required_asserts = []
